@@ -167,10 +167,91 @@ def check(ctx) -> None:
         ctx.instance("C10-A4", "ensemble_mcs: Parallel(return_as=%s)" % (unparse(ra) if ra is not None else "default"), en.loc(c), ok=ok)
         if not ok:
             ctx.finding("C10-A4", "mcs_process.ensemble_mcs:parallel-unordered", en.loc(c), "results of the per-condition search may arrive out of order; the tables of different conditions are joined by position")
+    rule_a5(ctx)
     ok = _accumulates_in_order(en, pc)
     ctx.instance("C10-A4", "results appended in iteration order per condition", en.loc(), ok=ok)
     if not ok:
         ctx.finding("C10-A4", "mcs_process.ensemble_mcs:accumulation", en.loc(), "per-condition results are not accumulated in iteration order over the rows")
+
+
+def _split_iter(f: Func, it: ast.AST) -> bool:
+    """``it`` is ``<x>.split('.')`` (directly or through a single-assignment local)."""
+    if isinstance(it, ast.Name):
+        a = assignments_to(f, it.id)
+        if len(a) == 1:
+            it = a[0][1]
+    return isinstance(it, ast.Call) and isinstance(it.func, ast.Attribute) and it.func.attr == "split" and len(it.args) == 1 and const_str(it.args[0]) == "."
+
+
+def one_per_component(ctx, f: Func, e: ast.AST, depth: int = 0):
+    """Is the list denoted by ``e`` built with exactly one entry per '.'-component?
+    -> ('yes' | 'no' | 'unknown', reason)"""
+    if isinstance(e, ast.Name):
+        a = assignments_to(f, e.id)
+        if len(a) == 1 and a[0][2] is None and not (isinstance(a[0][1], ast.List) and not a[0][1].elts):
+            return one_per_component(ctx, f, a[0][1], depth)
+        # list filled by append in a loop over the components
+        fills = [c for c in calls(f) if isinstance(c.func, ast.Attribute) and c.func.attr == "append" and isinstance(c.func.value, ast.Name) and c.func.value.id == e.id]
+        inits = [v for _, v, _i in a if isinstance(v, ast.List) and not v.elts]
+        if fills and inits and len(a) == len(inits):
+            cfg = CFG(f.node)
+            for c in fills:
+                loop = getattr(c, "_parent", None)
+                while loop is not None and not isinstance(loop, ast.For):
+                    loop = getattr(loop, "_parent", None)
+                if loop is None or not _split_iter(f, loop.iter):
+                    return "unknown", "append outside a loop over the components"
+                g = cfg.guards(cfg.node_of(c))
+                if g:
+                    return "no", "components are appended only under %s" % " and ".join(unparse(x)[:40] for x, _ in g)
+            return "yes", "appended once per component"
+        return "unknown", "%s has %d bindings" % (e.id, len(a))
+    if isinstance(e, ast.ListComp):
+        if len(e.generators) == 1 and _split_iter(f, e.generators[0].iter):
+            if e.generators[0].ifs:
+                return "no", "the comprehension filters components (%s)" % unparse(e.generators[0].ifs[0])[:40]
+            return "yes", "comprehension over the components"
+        return "unknown", "comprehension over %s" % unparse(e.generators[0].iter)[:40]
+    if isinstance(e, ast.Call):
+        fn = unparse(e.func).split(".")[-1]
+        if fn == "list" and e.args:
+            inner = e.args[0]
+            if isinstance(inner, ast.Call) and unparse(inner.func).split(".")[-1] == "map" and len(inner.args) == 2 and _split_iter(f, inner.args[1]):
+                return "yes", "map over the components"
+            if isinstance(inner, ast.Call) and isinstance(inner.func, ast.Attribute) and inner.func.attr in ("values", "keys"):
+                return "no", "the list is taken from a dictionary (%s): a component that occurs more than once is kept once" % unparse(inner)[:40]
+            if isinstance(inner, ast.Call) and unparse(inner.func).split(".")[-1] in ("set", "frozenset", "fromkeys"):
+                return "no", "the list is taken from a set / dict.fromkeys: repeated components collapse"
+            return one_per_component(ctx, f, inner, depth)
+        if fn in ("set", "frozenset", "fromkeys", "unique"):
+            return "no", "%s() collapses repeated components" % fn
+        tgt = ctx.res.resolve_callee(e, f)
+        if tgt and tgt[0] == "func" and tgt[1] in ctx.prog.functions and depth < 2:
+            g = ctx.prog.functions[tgt[1]]
+            rets = [r for r in own_nodes(g.node) if isinstance(r, ast.Return) and r.value is not None]
+            verdicts = [one_per_component(ctx, g, r.value, depth + 1) for r in rets]
+            if verdicts and all(v[0] == "yes" for v in verdicts):
+                return "yes", "%s(): %s" % (g.name, verdicts[0][1])
+            for v in verdicts:
+                if v[0] == "no":
+                    return "no", "%s(): %s" % (g.name, v[1])
+            return "unknown", "%s(): %s" % (g.name, verdicts[0][1] if verdicts else "no return")
+    return "unknown", "expression %s" % unparse(e)[:40]
+
+
+def rule_a5(ctx) -> None:
+    ctx.rule("C10-A5", "the molecule list handed to the pair search has one entry per component of the searched side", 2)
+    prog = ctx.prog
+    fit = prog.func("synrbl.SynMCSImputer.SubStructure.mcs_graph_detector.MCSMissingGraphAnalyzer.fit")
+    pairs = [c for c in calls(fit) if unparse(c.func).split(".")[-1] == "IterativeMCSReactionPairs" and c.args]
+    ctx.require(len(pairs) >= 2, "fit no longer calls IterativeMCSReactionPairs for both directions")
+    for c in pairs:
+        v, why = one_per_component(ctx, fit, c.args[0])
+        ctx.instance("C10-A5", "fit: %s - %s" % (unparse(c.args[0]), why), fit.loc(c), ok=v == "yes")
+        if v == "no":
+            ctx.finding("C10-A5", "mcs_graph_detector.MCSMissingGraphAnalyzer.fit:molecule-list:%s" % unparse(c.args[0]), fit.loc(c), "the molecule list %s is not the multiset of the searched side: %s" % (unparse(c.args[0]), why))
+        elif v == "unknown":
+            ctx.require(False, "cannot decide how %s is built in fit (%s)" % (unparse(c.args[0]), why))
 
 
 def _accumulates_in_order(en: Func, pcalls) -> bool:
